@@ -2455,9 +2455,6 @@ class Driver(object, metaclass=DriverMetaclass):
                                   tr_options=tr_options or {},
                                   jac=jacfun)
 
-        if self._exc_info is not None:
-            self._reraise()
-
         if iprint == 2:
             print()
             print('-------------------------')
@@ -2482,6 +2479,11 @@ class Driver(object, metaclass=DriverMetaclass):
             with SaveOptResult(self):
                 res = f_lsq()
                 self.result.success = res.success and res.cost <= loss_tol
+
+        # If an exception was swallowed in one of our callbacks within scipy, reraise it now.
+        if self._exc_info is not None:
+            self.result.success = False
+            self._reraise()
 
         if iprint >= 1:
             if res.success:
